@@ -726,6 +726,34 @@ def _inverse_pair(prog: Program, tf: TextFlow, fn: Func, kinds, c: ast.Call, cal
     an inverse pair on every line that is not whitespace-only (those were already normalised by the trailing-space stage)."""
     dedents = [x for x in prog.calls_in(fn) if _lib_name(prog, fn, x) == "textwrap.dedent" and x.args and tf.expr_kind(x.args[0], fn, kinds) == WHOLE]
     indents = [x for x in prog.calls_in(fn) if _lib_name(prog, fn, x) == "textwrap.indent" and x.args and tf.expr_kind(x.args[0], fn, kinds) == WHOLE]
+    # the fence: `if not <tree comparison>(<text before the dedent>, textwrap.indent(<dedented>, ..)): return ..` - the pair is tried on the
+    # input before anything is done with the dedented text.  dedent empties whitespace-only lines and indent leaves them empty, also
+    # inside literals: on those inputs the pair is no inverse pair, and the comparison says so.
+    fence = []
+    for x in list(indents):
+        call = parent(x)
+        if isinstance(call, ast.Assign) and len(call.targets) == 1 and isinstance(call.targets[0], ast.Name):
+            # the round trip kept in a local first: the comparison that reads the local
+            local = call.targets[0].id
+            readers = [y for y in prog.calls_in(fn) if len(y.args) == 2 and isinstance(y.args[1], ast.Name) and y.args[1].id == local and len(assignments(fn, local)) == 1]
+            if readers:
+                call = readers[0]
+                x_arg_ok = True
+            else:
+                x_arg_ok = False
+        else:
+            x_arg_ok = isinstance(call, ast.Call) and len(call.args) == 2 and call.args[1] is x
+        if x_arg_ok and isinstance(call, ast.Call) and (prog.dotted(call.func) or "").split(".")[-1] == "keeps_syntax_tree" and len(call.args) == 2 \
+                and dedents and norm(call.args[0]) == norm(dedents[0].args[0]):
+            test = parent(call)
+            stmt = parent(test)
+            if isinstance(test, ast.UnaryOp) and isinstance(test.op, ast.Not) and isinstance(stmt, ast.If) and stmt.test is test and stmt.body \
+                    and isinstance(stmt.body[-1], ast.Return) and stmt.lineno > dedents[0].lineno:
+                fence.append(x)
+    indents = [x for x in indents if x not in fence]
+    if len(dedents) == 1 and len(indents) == 1 and not fence:
+        return False, ("dedent empties the whitespace-only lines of the text and indent leaves them empty, also inside string literals: the pair is an inverse pair only on "
+                       "inputs without such lines, and nothing tries it on the input (a tree comparison of the text with indent(dedent(text))) before the dedented text is used")
     if len(dedents) != 1 or len(indents) != 1:
         return False, f"{callee} on the whole text is not part of exactly one dedent/indent pair ({len(dedents)} dedent, {len(indents)} indent): indentation inside multi-line literals is changed and not restored"
     d, i = dedents[0], indents[0]
@@ -910,6 +938,12 @@ def _r11_4(prog: Program, res: Result) -> None:
 from ..selftest import Variant  # noqa: E402
 
 VARIANTS = [
+    Variant("dedented-text-used-without-trying-the-pair", "FIRE", "main",
+            "        if not core.keeps_syntax_tree(\n            source, textwrap.indent(dedented_source, \" \" * minimum_indent)\n        ):\n            return unformatted_source\n", "", "R11.1"),
+    Variant("pair-tried-on-the-dedented-text-itself", "FIRE", "main",
+            "        if not core.keeps_syntax_tree(\n            source, textwrap.indent(dedented_source, \" \" * minimum_indent)\n        ):", "        if not core.keeps_syntax_tree(\n            dedented_source, textwrap.indent(dedented_source, \" \" * minimum_indent)\n        ):", "R11.1"),
+    Variant("round-trip-kept-in-a-local", "SILENT", "main",
+            "        if not core.keeps_syntax_tree(\n            source, textwrap.indent(dedented_source, \" \" * minimum_indent)\n        ):", "        there_and_back = textwrap.indent(dedented_source, \" \" * minimum_indent)\n        if not core.keeps_syntax_tree(source, there_and_back):"),
     Variant("tree-comparison-dedents-before-parsing", "FIRE", "core", '    for candidate in (source, "if True:\\n" + source):', '    for candidate in (source, textwrap.dedent(source), "if True:\\n" + source):', "R11.7"),
     Variant("tree-comparison-strips-before-parsing", "FIRE", "core", "            root = ast.parse(candidate)\n        except (SyntaxError, ValueError, RecursionError, MemoryError):\n            continue\n\n        # Whitespace inside docstrings", "            root = ast.parse(candidate.strip())\n        except (SyntaxError, ValueError, RecursionError, MemoryError):\n            continue\n\n        # Whitespace inside docstrings", "R11.7"),
     Variant("every-code-line-stripped-of-trailing-blanks", "FIRE", "processing", "        f\"{' ' * indents[i]}{code}\"\n        if i in ends_inside_string\n        else f\"{' ' * indents[i]}{code}\".rstrip()", "        f\"{' ' * indents[i]}{code}\".rstrip()", "R11.6"),
